@@ -129,4 +129,171 @@ def numericOf (a : Agent α) (p : Nat) : List α :=
 
 def valuesOf (ms : List (Agent α)) (p : Nat) : List α := ms.flatMap (fun a => numericOf a p)
 
+/-! ### the runner: `HybridRunner.get_df_for_agent`, `run_scenario` / `run_scenario_step` (wave 2)
+
+The statistics of a run are a dict `time ↦ statistics of that time`; it is modelled as an association list read
+by first match (`lookupA`).  `get_stats_for` walks it and, per time at which the selected agent type has
+agents, reads `states[state]["count"]` (count mode) or `states[state][property][aggregate]` (property mode) for
+every occupied selected state; a missing property record is Python's `KeyError` (`Num.keyError`, the whole
+call raises — `raises`).  `DataFrame(...).fillna(0)` and the zero columns added for never occupied states are
+modelled by their cell semantics (`Frame.cell`: the value written for (time, column), else 0).  `run_scenario`
+then copies the selected columns into the df / dict / json result (`runOut`); `readOut` is how a reader finds
+a number in it (absent = 0). -/
+
+inductive Agg4 where
+  | total | min | max | mean
+deriving DecidableEq, Repr
+
+/-- a reported number: a count, a value, a mean as numerator / denominator, the 0 a frame is filled with, or
+the `KeyError` raised when a selected property has no record in an occupied state. -/
+inductive Num (α : Type) where
+  | cnt (n : Nat)
+  | val (v : α)
+  | ratio (n : α) (d : Nat)
+  | zero
+  | keyError
+deriving DecidableEq, Repr
+
+def Num.isErr : Num α → Bool
+  | .keyError => true
+  | _ => false
+
+def recCell (r : PStat α) : Agg4 → Num α
+  | .total => .val r.total
+  | .min => .val r.min
+  | .max => .val r.max
+  | .mean => .ratio r.meanNum r.meanDen
+
+/-- a column of `get_df_for_agent`: `state` (count mode, `pa = none`) or `state_property_aggregate`. -/
+structure Col where
+  state : Nat
+  pa : Option (Nat × Agg4)
+deriving DecidableEq, Repr
+
+structure Sel where
+  agents : List Nat
+  states : List Nat
+  props : List Nat
+  aggs : List Agg4
+
+abbrev History (α : Type) := List (Nat × Stats α)
+
+/-- dict read: first match. -/
+def lookupA {κ β : Type} [DecidableEq κ] : List (κ × β) → κ → Option β
+  | [], _ => none
+  | (k', v) :: rest, k => if k' = k then some v else lookupA rest k
+
+/-- `row[agent_name]`: the states of one agent type at one time, in dict order. -/
+def statesOf (s : Stats α) (ag : Nat) : List (Nat × Group α) :=
+  s.filterMap (fun x => if x.1.1 = ag then some (x.1.2, x.2) else none)
+
+/-- `states[column][agent_property][property_type]`. -/
+def readRec (g : Group α) (p : Nat) (a : Agg4) : Num α :=
+  match lookupProp g.props p with
+  | some r => recCell r a
+  | none => .keyError
+
+/-- the number a column reads from the record of its state. -/
+def valOf (g : Group α) (c : Col) : Num α :=
+  match c.pa with
+  | none => .cnt g.count
+  | some (p, a) => readRec g p a
+
+/-- the keys `get_stats_for` writes into `counts` for one occupied selected state, in loop order. -/
+def groupCols (props : List Nat) (aggs : List Agg4) (st : Nat) : List Col :=
+  if props = [] then [⟨st, none⟩]
+  else props.flatMap (fun p => aggs.map (fun a => (⟨st, some (p, a)⟩ : Col)))
+
+def cellsOfGroup (props : List Nat) (aggs : List Agg4) (st : Nat) (g : Group α) : List (Col × Num α) :=
+  (groupCols props aggs st).map (fun c => (c, valOf g c))
+
+/-- `counts` of one time for one agent type. -/
+def rowOf (sel : Sel) (aggs : List Agg4) (s : Stats α) (ag : Nat) : List (Col × Num α) :=
+  (statesOf s ag).flatMap (fun x => if x.1 ∈ sel.states then cellsOfGroup sel.props aggs x.1 x.2 else [])
+
+/-- every column a property-mode selection names (the repaired `get_df_for_agent` guarantees they exist). -/
+def selCols (sel : Sel) (aggs : List Agg4) : List Col :=
+  sel.states.flatMap (fun st => sel.props.flatMap (fun p => aggs.map (fun a => (⟨st, some (p, a)⟩ : Col))))
+
+/-- the frame `get_df_for_agent` returns, by its cell semantics. -/
+structure Frame (α : Type) where
+  /-- times that have a row: the type has an agent in a selected state -/
+  index : List Nat
+  cols : List Col
+  /-- value after `fillna(0)` -/
+  cell : Col → Nat → Num α
+
+def getDf (sel : Sel) (aggs : List Agg4) (data : History α) (ag : Nat) : Frame α :=
+  { index := (data.filter (fun x => !(rowOf sel aggs x.2 ag).isEmpty)).map (·.1),
+    cols := data.flatMap (fun x => (rowOf sel aggs x.2 ag).map (·.1)) ++ (if sel.props = [] then [] else selCols sel aggs),
+    cell := fun c t => match lookupA data t with
+      | none => .zero
+      | some s => (lookupA (rowOf sel aggs s ag) c).getD .zero }
+
+inductive Fmt where
+  | df | dict | json
+deriving DecidableEq, Repr
+
+/-- `sorted(list(set(agent_property_types)))`, all four when none is given (dict / json only). -/
+def effAggs (fmt : Fmt) (aggs : List Agg4) : List Agg4 :=
+  match fmt with
+  | .df => aggs
+  | _ => if aggs = [] then [.max, .mean, .min, .total] else [Agg4.max, .mean, .min, .total].filter (fun a => a ∈ aggs)
+
+def hasType (s : Stats α) (ag : Nat) : Bool := s.any (fun x => x.1.1 == ag)
+
+/-- the call raises: no state selected (`output[t] = 0` has no `.items()`), or a selected property has no
+record in an occupied selected state (`KeyError`). -/
+def raises (sel : Sel) (aggs : List Agg4) (data : History α) : Bool :=
+  (sel.states.isEmpty && data.any (fun x => sel.agents.any (fun ag => hasType x.2 ag))) ||
+  data.any (fun x => sel.agents.any (fun ag => (rowOf sel aggs x.2 ag).any (fun y => y.2.isErr)))
+
+/-- result of a run: (agent, column) ↦ series (time ↦ number). -/
+abbrev Out (α : Type) := List ((Nat × Col) × List (Nat × Num α))
+
+def outCols (sel : Sel) (aggs : List Agg4) (f : Frame α) : List Col :=
+  if sel.props = [] then f.cols else selCols sel aggs
+
+def series (f : Frame α) (idx : List Nat) (c : Col) : List (Nat × Num α) := idx.map (fun t => (t, f.cell c t))
+
+/-- the (agent, column) keys of a result, in loop order. -/
+def outKeys (sel : Sel) (aggs : List Agg4) (data : History α) : List (Nat × Col) :=
+  sel.agents.flatMap (fun ag => (outCols sel aggs (getDf sel aggs data ag)).map (fun c => (ag, c)))
+
+/-- df: `concat(axis=1).fillna(0)` — every column over the union of the row indices. -/
+def outIndex (fmt : Fmt) (sel : Sel) (aggs : List Agg4) (data : History α) (ag : Nat) : List Nat :=
+  match fmt with
+  | .df => sel.agents.flatMap (fun ag' => (getDf sel aggs data ag').index)
+  | _ => (getDf sel aggs data ag).index
+
+/-- `run_scenario` / `run_scenario_step` after the simulation: df = one frame over the union of the row
+indices, dict = one Series per selected cell over its own agent's index, json = the same through
+`to_dict()`; the first write of a key wins (the result is read by first match). -/
+def runOut (fmt : Fmt) (sel : Sel) (data : History α) : Option (Out α) :=
+  let aggs := effAggs fmt sel.aggs
+  if raises sel aggs data then none
+  else if data.isEmpty then some []
+  else some ((outKeys sel aggs data).map (fun k =>
+    (k, series (getDf sel aggs data k.1) (outIndex fmt sel aggs data k.1) k.2)))
+
+/-- how a number is found in a result: absent column / absent time = 0. -/
+def readOut (out : Out α) (ag : Nat) (c : Col) (t : Nat) : Num α :=
+  match lookupA out (ag, c) with
+  | none => .zero
+  | some ser => (lookupA ser t).getD .zero
+
+/-- specification side: the number of one (agent type, column, time) read straight from the statistics. -/
+def cellOf (s : Stats α) (ag : Nat) (c : Col) : Num α :=
+  match lookupGroup s (ag, c.state) with
+  | none => .zero
+  | some g => valOf g c
+
+def pointCell (data : History α) (ag : Nat) (c : Col) (t : Nat) : Num α :=
+  match lookupA data t with
+  | none => .zero
+  | some s => cellOf s ag c
+
+/-- the statistics history of a run: `collect` at every recorded time. -/
+def histOf (o : Ops α) (pops : List (Nat × List (Agent α))) : History α := pops.map (fun x => (x.1, collect o x.2))
+
 end Bptk.C13
